@@ -3,6 +3,7 @@ package main
 import (
 	"encoding/json"
 	"fmt"
+	"go/ast"
 	"go/types"
 	"os"
 	"path/filepath"
@@ -228,6 +229,35 @@ func runCheck(prop, tier string, writeLock bool) int {
 				o.Fn = e.fnName
 			}
 			allObls = append(allObls, e.obls...)
+			// closures with their own contracts
+			var cks []int
+			for k := range ct.Closures {
+				cks = append(cks, k)
+			}
+			sort.Ints(cks)
+			for _, k := range cks {
+				cct := ct.Closures[k]
+				lit := nthFuncLit(fi, k)
+				if lit == nil {
+					violate(pkg.Types.Name()+"."+cct.Key+"/missing", true, map[string]interface{}{"reason": "function literal under contract not found"})
+					continue
+				}
+				ce := safeVerifyLit(g, fi, cct, lit, ct)
+				execs = append(execs, ce)
+				cfr := &funcReport{Name: ce.fnName, File: g.fset.Position(lit.Pos()).String()}
+				for w, n := range ce.warns {
+					cfr.Warnings = append(cfr.Warnings, fmt.Sprintf("%s (x%d)", w, n))
+				}
+				freps = append(freps, cfr)
+				if len(ce.errs) > 0 {
+					genErrs = append(genErrs, ce.errs...)
+					violate(ce.fnName+"/generate", true, map[string]interface{}{"reason": "the generator could not translate this closure or its contract", "errors": ce.errs})
+				}
+				for _, o := range ce.obls {
+					o.Fn = ce.fnName
+				}
+				allObls = append(allObls, ce.obls...)
+			}
 		}
 		// lemmas
 		var lnames []string
@@ -521,6 +551,44 @@ func safeVerify(g *Gen, fi *funcInfo, ct *Contract) (e *Exec) {
 	}()
 	e = verifyFunc(g, fi, ct, nil, nil)
 	return e
+}
+
+func safeVerifyLit(g *Gen, fi *funcInfo, ct *Contract, lit *ast.FuncLit, parent *Contract) (e *Exec) {
+	defer func() {
+		if r := recover(); r != nil {
+			if e == nil {
+				e = newExec(g, fi.pkg)
+				e.fnName = fi.pkg.Types.Name() + "." + ct.Key
+			}
+			e.errs = append(e.errs, fmt.Sprintf("generator panic in %s: %v", ct.Key, r))
+			if os.Getenv("VERIF_VERBOSE") != "" {
+				panic(r)
+			}
+		}
+	}()
+	e = verifyFunc(g, fi, ct, lit, parent)
+	return e
+}
+
+// nthFuncLit returns the k-th function literal of fi in source order (the numbering of computeOrdinals).
+func nthFuncLit(fi *funcInfo, k int) *ast.FuncLit {
+	var lits []*ast.FuncLit
+	var visit func(root ast.Node)
+	visit = func(root ast.Node) {
+		ast.Inspect(root, func(n ast.Node) bool {
+			if x, ok := n.(*ast.FuncLit); ok && n != root {
+				lits = append(lits, x)
+				visit(x)
+				return false
+			}
+			return true
+		})
+	}
+	visit(fi.decl.Body)
+	if k < len(lits) {
+		return lits[k]
+	}
+	return nil
 }
 
 func findFunc(g *Gen, pkgPath, key string) *funcInfo {
